@@ -439,7 +439,12 @@ impl<'a> Walk<'a> {
         if level >= self.depth {
             return;
         }
-        if !self.path_selector.matches_dir(&path) {
+        let may_lead_to_matches = if self.follow_links {
+            self.path_selector.matches_dir_following_links(&path)
+        } else {
+            self.path_selector.matches_dir(&path)
+        };
+        if !may_lead_to_matches {
             return;
         }
         if self.one_fs && !self.same_fs(&path, dev) {
